@@ -470,7 +470,7 @@ PROPERTIES = {
                     'a BrokenPipe result diverts to exit_for_broken_pipe and never returns; every other result is returned unchanged. Verus U-MAIN-V (verbatim main()): every finished input is flushed through that wrapper, and the flush result is honoured, before the next input is opened and before a normal return -- no output is left to a destructor whose write error would be discarded.',
         assumptions=['raise(SIGPIPE) with SIG_DFL terminates the process silently (libc/kernel; not modelled)',
                      'main() places the wrapper outside the BufWriter (type-checked only: the wrapper types are stand-ins in U-MAIN-V)'],
-        not_covered=['signal delivery', 'the position of the pipecheck wrapper relative to the BufWriter in main() (main() itself is under contract in U-MAIN-V: flush honoured after every input, every failure leaves through process::exit)']),
+        not_covered=['signal delivery', 'exit_for_broken_pipe itself: that signal(SIGPIPE, SIG_DFL) precedes raise(SIGPIPE) (two FFI calls without a data dependency; Kani 0.68 cannot stub foreign functions, Verus has no state to attach the order to; seeded change C16-h is not detected)', 'the position of the pipecheck wrapper relative to the BufWriter in main() (main() itself is under contract in U-MAIN-V: flush honoured after every input, every failure leaves through process::exit)']),
     'C17': dict(
         explanation='Unsafe code xt wrote that can be isolated: Parser::read_handler with a reader that returns any Ok(n) (even n > buffer) or Err: no write beyond buffer_size (canary bytes), '
                     'success => size_read <= buffer_size and destination == what the reader produced, failure => error stashed and destination untouched, null arguments refused; '
